@@ -68,6 +68,9 @@ def check(pid: str, tier: str, seed: int):
                     mo.add_association(o)
                 PIO.add_model_attackers(impl, rng, mo, lgo)
                 pairs.append((f'ops{oi}', Lo, lgo, lcfo, mo))
+        except Exception:
+            pass
+        try:
             # a second language of the same process with the same asset types, step and variable names, in which the
             # variable and two steps are defined differently: nothing of the first language may show in its graphs
             Lt = copy.deepcopy(Lo)
@@ -92,8 +95,9 @@ def check(pid: str, tier: str, seed: int):
                 setattr(o, lf, [objs[l]]); setattr(o, rf, [objs[r]])
                 mt.add_association(o)
             pairs.append(('twin', Lt, lgt, lcft, mt))
-        except Exception:
-            pass
+        except Exception as e:
+            metas.append({'label': 'twin', 'nodes': 0, 'serialized': None,
+                          'prop_viol': [f'a well-formed language could not be loaded after another language with the same names was loaded in the same process: {type(e).__name__}']})
         # inheritance chains of depth 3 with a step absent / plain / '->' / '+>' at every level (in-process checks only)
         chain_pairs = []
         for ci, L in enumerate(PL.exhaustive_langs(3)):
@@ -276,6 +280,10 @@ def check(pid: str, tier: str, seed: int):
                     cases.append(f'({LG.c_lang(L)}, {MG.c_imodel(view)}, {C.cjv(obs)})')
                 except Exception as e:
                     pv.append(f'a further generation from the same model raised {type(e).__name__}')
+        # the fresh interpreters take the pairs in another order than this process did (last pair first), so that nothing
+        # a process keeps from the languages it loaded earlier can make the two agree by accident
+        batch_mar.reverse()
+        batch_mal.reverse()
         jobs = []
         for route, batch in (('direct', batch_mar), ('wrapper', batch_mar), ('wrapper-mal', batch_mal), ('direct-mal', batch_mal)):
             bf = os.path.join(scratch, f'batch_{route}.json')
